@@ -66,6 +66,9 @@ def make_data(flat, n, nc, form, numpy):
         return a.reshape(-1, int(form[4:]))
     if form == 'f64':
         return a.astype(numpy.float64)
+    if form == 'f64x':
+        # double precision values that single precision cannot represent (direct-oracle probes only)
+        return numpy.array(flat, dtype=numpy.float64) / 3.0 + 16777217.0
     if form == 'strided':
         big = numpy.zeros(2 * len(flat), dtype=numpy.float32)
         big[::2] = a
@@ -93,6 +96,16 @@ def build_create(case):
         il.addInput(off, sem, ref_of(tgt), st)
     mat = None if case.get('material') is None else 'mat%d' % case['material']
     kind = case['kind']
+    nsaves = case.get('saves', 0)
+    for _ in range(nsaves):
+        # the document / its sources are saved (possibly several times, nothing changed in between)
+        # before the primitive is made: saving must leave the sources as they are
+        for sobj in srcs:
+            sobj.save()
+        try:
+            geom.save()
+        except Exception:  # noqa  (saving a geometry without primitives is not this property's subject)
+            pass
     main = _maker(case, case, geom, il, mat, numpy)
     pre = [_maker(case, dict(case, **st), geom, il, mat, numpy) for st in case.get('prelude') or []]
 
@@ -121,6 +134,10 @@ def _maker(case0, case, geom, il, mat, numpy):
         vc = list(case['vcounts']) if vf == 'list' else \
             numpy.array(case['vcounts'], dtype=numpy.int32 if vf == 'array' else getattr(numpy, vf))
         return lambda: geom.createPolylist(numpy.array(case['flat'], dtype=dt), vc, il, mat)
+    pd = case.get('pdtypes')
+    if pd and len(pd) == len(case['polys']):
+        # every polygon array in its own integer dtype (each wide enough for its own values)
+        return lambda: geom.createPolygons([numpy.array(p, dtype=getattr(numpy, d)) for p, d in zip(case['polys'], pd)], il, mat)
     return lambda: geom.createPolygons([numpy.array(p, dtype=dt) for p in case['polys']], il, mat)
 
 
@@ -395,6 +412,18 @@ def run_case(case):
             fails.append({'clause': 'shape', 'defect': 'vcount-vs-rows', 'site': kind, 'got': 'accepted',
                           'detail': 'vcounts sum to %d but the index arrays have %d rows' % (nv, nrows)})
     acc = [int(p.nindices), int(nrows), int(len(p)), views]
+    if nrows > 0:
+        # saving the sources (twice, nothing changed in between) must leave the exposed arrays as they are
+        try:
+            for _ in range(2):
+                for lst in p.sources.values():
+                    for inp in lst:
+                        inp[4].save()
+            saved = True
+        except Exception:  # noqa
+            saved = False
+        if saved:
+            fails += check_views(p, kind, nrows, k, '-after-saving-sources')[1]
     if kind == 'tri' and nrows > 0:
         # the public mutators that install new views: the clauses must hold for the views as they are now
         for step in ('generateNormals', 'generateTexTangentsAndBinormals'):
